@@ -4,15 +4,21 @@ package jtp
 
 import (
 	"time"
-
-	lru "github.com/hashicorp/golang-lru/v2"
 )
 
 /* Test-only access for harness files of other packages (never built without the verif tag). */
 
-// VerifSetCache replaces the response cache by an empty one of the given capacity.
+// VerifSetCache empties the response cache and gives it the capacity asked for.  Written against
+// what the cache can do (Purge, Resize) rather than against its type, so that the harness still
+// builds when the kind of cache changes.
 func VerifSetCache(capacity int) {
-	cache, _ = lru.New[string, bundle](capacity)
+	var c any = cache
+	if p, ok := c.(interface{ Purge() }); ok {
+		p.Purge()
+	}
+	if r, ok := c.(interface{ Resize(int) int }); ok {
+		r.Resize(capacity)
+	}
 }
 
 // VerifSetTimeout sets the configured network timeout.
